@@ -43,6 +43,8 @@ MUTANTS = [
     ('add-t1-CBCB', 'let t1 = tmp.shuffle(Shuffle::CBCB);', 'let t1 = tmp.shuffle(Shuffle::CACA);', 1),
     ('add-mul-self', 'tmp = &tmp * &other.0;', 'tmp = &tmp * &tmp;', 1),
     ('add-swap-mul-operands', 'tmp = &tmp * &other.0;', 'tmp = &other.0 * &tmp;', 1),
+    ('add-double-diff_sum', 'tmp = tmp.diff_sum();\n        // tmp = (S9-S8', 'tmp = tmp.diff_sum().diff_sum();\n        // tmp = (S9-S8', 1),
+    ('add-lazy-lhs', 'tmp = tmp.blend(tmp.diff_sum(), Lanes::AB);', 'tmp = tmp.blend((tmp + tmp).diff_sum(), Lanes::AB);', 1),
     # ---- neg / sub
     ('neg-no-swap', 'let swapped = self.0.shuffle(Shuffle::BACD);', 'let swapped = self.0.shuffle(Shuffle::ABDC);', 1),
     ('neg-lane-C', 'CachedPoint(swapped.blend(swapped.negate_lazy(), Lanes::D))', 'CachedPoint(swapped.blend(swapped.negate_lazy(), Lanes::C))', 1),
